@@ -167,3 +167,160 @@ Example C05_example_full :
                          || (Nat.eqb i 3 && Nat.eqb j 0) || (Nat.eqb i 0 && Nat.eqb j 3) in
   spheregroup_full 5 link [[0; 3; 2]; [1; 4]; [4; 3]] = spec_output 5 link.
 Proof. vm_compute. reflexivity. Qed.
+
+
+(* ================================================================== the source's own statements (round 3) *)
+From Coq Require Import String.
+From PV Require Import C05.Imp C05.GenRef Generated.Groups C05.GenProofs.
+Open Scope string_scope.
+
+(* every statement / loop header / fill value extracted from class groups, chunks.friendsoffriends and the tail of
+   spheregroup() on this run (Generated/Groups.v) is, syntactically, the reference transliteration C05/GenRef.v *)
+Theorem C05_generated_is_reference :
+  groups_recognised = true /\
+  gen_fof_groups_from = ref_fof_groups_from /\
+  gen_fof_groups_to = ref_fof_groups_to /\
+  gen_fof_groups_step = ref_fof_groups_step /\
+  gen_fof_min_init = ref_fof_min_init /\
+  gen_fof_walk_continue = ref_fof_walk_continue /\
+  gen_fof_pass1_body = ref_fof_pass1_body /\
+  gen_fof_is_new = ref_fof_is_new /\
+  gen_fof_new_root = ref_fof_new_root /\
+  gen_fof_link_root = ref_fof_link_root /\
+  gen_fof_pass2_body = ref_fof_pass2_body /\
+  gen_fof_flat_from = ref_fof_flat_from /\
+  gen_fof_flat_to = ref_fof_flat_to /\
+  gen_fof_flat_step = ref_fof_flat_step /\
+  gen_fof_flat_body = ref_fof_flat_body /\
+  gen_fof_mapin_from = ref_fof_mapin_from /\
+  gen_fof_mapin_to = ref_fof_mapin_to /\
+  gen_fof_mapin_step = ref_fof_mapin_step /\
+  gen_fof_mapin_body = ref_fof_mapin_body /\
+  gen_fof_build_from = ref_fof_build_from /\
+  gen_fof_build_to = ref_fof_build_to /\
+  gen_fof_build_step = ref_fof_build_step /\
+  gen_fof_build_body = ref_fof_build_body /\
+  gen_fof_mult_from = ref_fof_mult_from /\
+  gen_fof_mult_to = ref_fof_mult_to /\
+  gen_fof_mult_step = ref_fof_mult_step /\
+  gen_fof_mult_body = ref_fof_mult_body /\
+  gen_fof_fill_inGroup = ref_fof_fill_inGroup /\
+  gen_fof_fill_mapGroups = ref_fof_fill_mapGroups /\
+  gen_fof_fill_firstGroup = ref_fof_fill_firstGroup /\
+  gen_fof_fill_nextGroup = ref_fof_fill_nextGroup /\
+  gen_fof_fill_multGroup = ref_fof_fill_multGroup /\
+  gen_groups_main_from = ref_groups_main_from /\
+  gen_groups_main_to = ref_groups_main_to /\
+  gen_groups_main_step = ref_groups_main_step /\
+  gen_groups_partner_from = ref_groups_partner_from /\
+  gen_groups_partner_to = ref_groups_partner_to /\
+  gen_groups_partner_step = ref_groups_partner_step /\
+  gen_groups_link = ref_groups_link /\
+  gen_groups_partner_body = ref_groups_partner_body /\
+  gen_groups_min_init = ref_groups_min_init /\
+  gen_groups_relabel_from = ref_groups_relabel_from /\
+  gen_groups_relabel_to = ref_groups_relabel_to /\
+  gen_groups_relabel_step = ref_groups_relabel_step /\
+  gen_groups_relabel_body = ref_groups_relabel_body /\
+  gen_groups_newgroup = ref_groups_newgroup /\
+  gen_groups_reset_from = ref_groups_reset_from /\
+  gen_groups_reset_to = ref_groups_reset_to /\
+  gen_groups_reset_step = ref_groups_reset_step /\
+  gen_groups_reset_body = ref_groups_reset_body /\
+  gen_groups_rebuild_from = ref_groups_rebuild_from /\
+  gen_groups_rebuild_to = ref_groups_rebuild_to /\
+  gen_groups_rebuild_step = ref_groups_rebuild_step /\
+  gen_groups_rebuild_body = ref_groups_rebuild_body /\
+  gen_groups_renum_from = ref_groups_renum_from /\
+  gen_groups_renum_to = ref_groups_renum_to /\
+  gen_groups_renum_step = ref_groups_renum_step /\
+  gen_groups_renum_body = ref_groups_renum_body /\
+  gen_groups_build_from = ref_groups_build_from /\
+  gen_groups_build_to = ref_groups_build_to /\
+  gen_groups_build_step = ref_groups_build_step /\
+  gen_groups_build_body = ref_groups_build_body /\
+  gen_groups_mult_from = ref_groups_mult_from /\
+  gen_groups_mult_to = ref_groups_mult_to /\
+  gen_groups_mult_step = ref_groups_mult_step /\
+  gen_groups_mult_body = ref_groups_mult_body /\
+  gen_groups_fill_firstGroup = ref_groups_fill_firstGroup /\
+  gen_groups_fill_nextGroup = ref_groups_fill_nextGroup /\
+  gen_groups_refill_firstGroup = ref_groups_refill_firstGroup /\
+  gen_sg_renum_from = ref_sg_renum_from /\
+  gen_sg_renum_to = ref_sg_renum_to /\
+  gen_sg_renum_step = ref_sg_renum_step /\
+  gen_sg_renum_body = ref_sg_renum_body /\
+  gen_sg_build_from = ref_sg_build_from /\
+  gen_sg_build_to = ref_sg_build_to /\
+  gen_sg_build_step = ref_sg_build_step /\
+  gen_sg_build_body = ref_sg_build_body /\
+  gen_sg_mult_from = ref_sg_mult_from /\
+  gen_sg_mult_to = ref_sg_mult_to /\
+  gen_sg_mult_step = ref_sg_mult_step /\
+  gen_sg_mult_body = ref_sg_mult_body /\
+  gen_sg_refill_firstgroup = ref_sg_refill_firstgroup /\
+  gen_sg_refill_multgroup = ref_sg_refill_multgroup.
+Proof. exact generated_is_reference. Qed.
+Print Assumptions C05_generated_is_reference.
+
+(* the reference chase / compression loops are the functions the merge proofs are about *)
+Theorem C05_reference_loops_are_model :
+  (forall fuel mp c, zchase fuel (lift mp) (Z.of_nat c) = Z.of_nat (chase fuel mp c)) /\
+  (forall fuel mp mz c m, (forall x, (0 <= x)%Z -> mz x = lift mp x) ->
+     forall x, (0 <= x)%Z -> zcompress fuel mz (Z.of_nat c) (Z.of_nat m) x = lift (compress (S fuel) mp c m) x).
+Proof. exact (conj zchase_is_chase zcompress_is_compress). Qed.
+Print Assumptions C05_reference_loops_are_model.
+
+(* first member walk of friendsoffriends: chase to the root and take the MINIMUM, or number the point *)
+Theorem C05_ref_fof_pass1_spec : forall fuel s,
+  let p := rd s "cell" (sv s "l") in
+  let s' := ref_fof_pass1_body fuel s in
+  sv s' "l" = rd s "cg_next" (sv s "l") /\
+  (forall x, rd s' "mapGroups" x = rd s "mapGroups" x) /\
+  (rd s "inGroup" p <> (-1)%Z ->
+     sv s' "minEarly" = Z.min (sv s "minEarly") (zchase fuel (rd s "mapGroups") (rd s "inGroup" p)) /\
+     (forall x, rd s' "inGroup" x = rd s "inGroup" x)) /\
+  (rd s "inGroup" p = (-1)%Z ->
+     sv s' "minEarly" = sv s "minEarly" /\ (forall x, rd s' "inGroup" x = zupd (rd s "inGroup") p (sv s "nMapGroups") x)).
+Proof. exact ref_fof_pass1_spec. Qed.
+Print Assumptions C05_ref_fof_pass1_spec.
+
+(* second member walk: the full path-compression loop towards minEarly *)
+Theorem C05_ref_fof_pass2_spec : forall fuel s,
+  let p := rd s "cell" (sv s "l") in
+  let s' := ref_fof_pass2_body fuel s in
+  sv s' "l" = rd s "cg_next" (sv s "l") /\
+  sv s' "minEarly" = sv s "minEarly" /\
+  (forall x, rd s' "inGroup" x = rd s "inGroup" x) /\
+  (forall x, rd s' "mapGroups" x = zcompress fuel (rd s "mapGroups") (rd s "inGroup" p) (sv s "minEarly") x).
+Proof. exact ref_fof_pass2_spec. Qed.
+Print Assumptions C05_ref_fof_pass2_spec.
+
+(* flattening pass, list building (next before first), loop bounds and directions, fill values, small steps *)
+Theorem C05_ref_tail_specs :
+  (forall s, rd s "mapGroups" (sv s "i") <> (-1)%Z ->
+     (rd s "mapGroups" (sv s "i") = sv s "i" ->
+        (forall x, rd (ref_fof_flat_body s) "mapGroups" x = zupd (rd s "mapGroups") (sv s "i") (sv s "nGroups") x) /\
+        sv (ref_fof_flat_body s) "nGroups" = (sv s "nGroups" + 1)%Z) /\
+     (rd s "mapGroups" (sv s "i") <> sv s "i" ->
+        (forall x, rd (ref_fof_flat_body s) "mapGroups" x =
+                   zupd (rd s "mapGroups") (sv s "i") (rd s "mapGroups" (rd s "mapGroups" (sv s "i"))) x) /\
+        sv (ref_fof_flat_body s) "nGroups" = sv s "nGroups")) /\
+  (forall s x, rd (ref_sg_build_body s) "nextgroup" x = zupd (rd s "nextgroup") (sv s "i") (rd s "firstgroup" (rd s "ingroup" (sv s "i"))) x /\
+               rd (ref_sg_build_body s) "firstgroup" x = zupd (rd s "firstgroup") (rd s "ingroup" (sv s "i")) (sv s "i") x) /\
+  (forall s, ref_groups_partner_from s = 0%Z /\ ref_groups_partner_to s = sv s "nTargets" /\ ref_groups_partner_step s = 1%Z /\
+             ref_sg_renum_from s = 0%Z /\ ref_sg_renum_to s = sv s "npoints" /\ ref_sg_renum_step s = 1%Z /\
+             ref_fof_flat_from s = 0%Z /\ ref_fof_flat_to s = sv s "nMapGroups" /\ ref_fof_flat_step s = 1%Z /\
+             ref_sg_build_from s = (sv s "npoints" - 1)%Z /\ ref_sg_build_to s = (-1)%Z /\ ref_sg_build_step s = (-1)%Z) /\
+  (forall s, sv (ref_groups_partner_body s) "minGroup" = Z.min (sv s "minGroup") (rd s "inGroup" (sv s "j"))).
+Proof.
+  exact (conj (fun s H => ref_fof_flat_spec s H)
+        (conj (fun s x => proj2 (proj2 (proj2 ref_build_spec)) s x)
+        (conj (fun s => match ref_headers s with
+                        | conj _ (conj (conj f1 (conj f2 f3)) (conj _ (conj _ (conj _ (conj _ (conj (conj p1 (conj p2 p3)) (conj _ (conj _ (conj _
+                            (conj _ (conj _ (conj _ (conj (conj r1 (conj r2 r3)) (conj (conj b1 (conj b2 b3)) _)))))))))))))) =>
+                            conj p1 (conj p2 (conj p3 (conj r1 (conj r2 (conj r3 (conj f1 (conj f2 (conj f3 (conj b1 (conj b2 b3))))))))))
+                        end)
+              (fun s => proj1 (proj1 (ref_small_steps s)))))).
+Qed.
+Print Assumptions C05_ref_tail_specs.
